@@ -13,8 +13,11 @@ DECIDED = ("R9.1 in every checked (safe) public install root the installation is
            "string and when_called_unchecked expects the empty string, when_called* otherwise store the FuncPtr's own recorded signature; "
            "R9.4 null is refused at construction (C05 R5.3); R9.5 async_func! and async_return! record the same type constructor "
            "`fn() -> Poll<T>` over the same T, and a future of another output type is rejected by rustc (compile-fail witness E0271 with a "
-           "compiling twin)")
-NOT_DECIDED = "that std::any::type_name renders structurally different fn-pointer types differently (assumed injective on them)"
+           "compiling twin); R9.6 over a family of 14 fn-pointer types differing in arity, one parameter type, return type, reference/pointer "
+           "mutability, unsafety and ABI, the strings rustc's own type_name implementation renders (taken from the compiler at check time, not by "
+           "running code) are pairwise different, and identical types written for different functions/closures render identically")
+NOT_DECIDED = ("injectivity of std::any::type_name outside the checked family (it is decided on the family of R9.6 with the compiler's own renderer; "
+               "other type pairs remain an assumption)")
 
 
 def run(ck, models, tier, ws):
@@ -179,6 +182,34 @@ def run(ck, models, tier, ws):
             okp = ptr.path == mod + "::instantiate::generated_poll_fn"
         ck.ob("R9.2", "%s/records-declared-fn-pointer-type" % key, tm.target, ok and okp, why + "; pointer recorded: %r" % (ptr,))
     ck.floor("R9.2", "macro-arms-recording-a-signature", n, 70)
+    # ---------------- R9.6 the family of the quantifier: rustc's own rendering distinguishes every pair of different types
+    from .. import harness as hmod
+    if hm.accepted("fam_types"):
+        names = {}
+        for name, d_, inv in hmod.FAMILY:
+            fn = "fam_types::rec_%s" % name
+            if hm.facts.body(fn) is None:
+                continue
+            for v in hm.variants(fn):
+                for e in v.trace:
+                    if e.kind == "ext" and e.name.endswith("FuncPtr::new"):
+                        names[name] = mac.rendered_type_name(e.args[1])
+        ck.floor("R9.6", "family-members-recorded", len([n for n in names.values() if n]), len(hmod.FAMILY))
+        distinct = [n for n in names if not n.startswith("same_")]
+        clashes = []
+        for i, a in enumerate(distinct):
+            for b in distinct[i + 1:]:
+                if names[a] is None or names[b] is None or names[a] == names[b]:
+                    clashes.append((a, b, names[a]))
+        ck.ob("R9.6", "family/structurally-different-types-render-differently", tm.target, not clashes,
+              "%d function-pointer types differing in arity, one parameter type, return type, reference/pointer mutability, unsafety and ABI: "
+              "%d pairs, %d rendered identically by rustc's type_name%s" % (
+                  len(distinct), len(distinct) * (len(distinct) - 1) // 2, len(clashes), (": %s" % clashes[:3]) if clashes else ""))
+        same = [names.get(n) for n in ("base", "same_fn", "same_closure")]
+        ck.ob("R9.6", "family/identically-written-types-render-identically", tm.target, len(set(same)) == 1 and same[0] is not None,
+              "the same type written for a different function and for a closure renders as %s" % sorted(set(map(str, same))))
+    else:
+        ck.ob("R9.6", "family/compiles", tm.target, False, "the type family module does not compile: %s" % (hm.h.verdicts.get("fam_types") or [{}])[0].get("message"))
     # ---------------- R9.5 async agreement and compile-fail witness
     a_sig = r_sig = None
     for mod, d in hm.modules("async_func"):
